@@ -9,10 +9,10 @@ trap 'rm -rf "$scratch"' EXIT
 git -C /repo archive HEAD | tar -x -C "$scratch"
 ( cd "$scratch" && git init -q . 2>/dev/null && git apply --whitespace=nowarn "$patch" ) || { echo "PATCH-FAILED $patch"; exit 3; }
 cd /verif
-cp -f evidence/$prop.json /tmp/.ev-$prop-$$.json 2>/dev/null
+
 VERIF_REPO="$scratch" ./check "$prop" --tier "$tier" > "$scratch/out.txt" 2>&1
 rc=$?
-[ -f /tmp/.ev-$prop-$$.json ] && mv -f /tmp/.ev-$prop-$$.json evidence/$prop.json
+
 grep -E "VIOLATION|KNOWN-FINDING|INFRA|ok tier|FAIL tier" "$scratch/out.txt" | head -5
 v=$(grep -o 'replay=[^ ]*' "$scratch/out.txt" | head -1 | cut -d= -f2)
 [ -n "$v" ] && python3 -c "
